@@ -506,3 +506,72 @@ func Cause(m message.Message) uint8 {
 	v, _ := c.Cause()
 	return v
 }
+
+// UsageRep is a usage-report IE decoded from any of the three carriers.
+type UsageRep struct {
+	URR     uint32
+	SEQN    uint32
+	Trig    uint32 // octets little-endian widened: octet5 | octet6<<8 | octet7<<16
+	HasSEQN bool
+	IE      *ie.IE
+}
+
+func children(i *ie.IE) []*ie.IE {
+	if len(i.ChildIEs) > 0 {
+		return i.ChildIEs
+	}
+	cs, err := ie.ParseMultiIEs(i.Payload)
+	if err != nil {
+		return nil
+	}
+	return cs
+}
+
+// Children exposes the child IEs of a grouped IE.
+func Children(i *ie.IE) []*ie.IE { return children(i) }
+
+// UsageReports extracts the usage reports of a Session Report Request,
+// Modification Response or Deletion Response, in message order.
+func UsageReports(m message.Message) []UsageRep {
+	var urs []*ie.IE
+	switch v := m.(type) {
+	case *message.SessionReportRequest:
+		urs = v.UsageReport
+	case *message.SessionModificationResponse:
+		urs = v.UsageReport
+	case *message.SessionDeletionResponse:
+		urs = v.UsageReport
+	}
+	var out []UsageRep
+	for _, u := range urs {
+		r := UsageRep{IE: u}
+		for _, c := range children(u) {
+			switch c.Type {
+			case ie.URRID:
+				if len(c.Payload) >= 4 {
+					r.URR = uint32(c.Payload[0])<<24 | uint32(c.Payload[1])<<16 | uint32(c.Payload[2])<<8 | uint32(c.Payload[3])
+				}
+			case ie.URSEQN:
+				if len(c.Payload) >= 4 {
+					r.SEQN = uint32(c.Payload[0])<<24 | uint32(c.Payload[1])<<16 | uint32(c.Payload[2])<<8 | uint32(c.Payload[3])
+					r.HasSEQN = true
+				}
+			case ie.UsageReportTrigger:
+				for k, b := range c.Payload {
+					if k < 3 {
+						r.Trig |= uint32(b) << (8 * k)
+					}
+				}
+			}
+		}
+		out = append(out, r)
+	}
+	return out
+}
+
+const (
+	TrigPERIO = 1 << 0
+	TrigVOLTH = 1 << 1
+	TrigIMMER = 1 << 7
+	TrigTERMR = 1 << 11
+)
